@@ -94,14 +94,24 @@ Definition pec_dir (c : pecfam) : string := match c with PExc => "excitation" | 
 (* the file of a key, relative to the repository root, exactly as the update_* / get_* functions
    format it (all symbols arrive here lower-cased) *)
 Definition path_adf11 f s : path := (adf11_dir f ++ [json s])%list.
-Definition path_tcx d dq r := ["thermal_cx"; d; strZ dq; json r].                 (* atomic.py:196 *)
-Definition path_pec c s q := ["pec"; pec_dir c; s; json (strZ q)].               (* pec.py:171 *)
-Definition path_pectcx d dq r rq := ["pec"; "thermal_cx"; d; strZ dq; r; json (strZ rq)].   (* pec.py:258 *)
-Definition path_wvl s q := ["wavelength"; s; json (strZ q)].                     (* wavelength.py:83 *)
-Definition path_bcx d r rq := ["beam"; "cx"; d; r; json (strZ rq)].              (* beam/cx.py:138 *)
-Definition path_bstop b t q := ["beam"; "stopping"; b; t; json (strZ q)].        (* beam/stopping.py:97 *)
-Definition path_bpop b m t q := ["beam"; "population"; b; strZ m; t; json (strZ q)].  (* beam/population.py:103 *)
-Definition path_bem b t q := ["beam"; "emission"; b; t; json (strZ q)].          (* beam/emission.py:104 *)
+(* the same with the numbers already rendered by '{}'.format (so that the templates can be compared with the source) *)
+Definition path_tcx_s (d dq r : string) : path := ["thermal_cx"; d; dq; json r].                 (* atomic.py:196 *)
+Definition path_pec_d (dir s q : string) : path := ["pec"; dir; s; json q].                      (* pec.py:171 *)
+Definition path_pec_s c (s q : string) : path := path_pec_d (pec_dir c) s q.
+Definition path_pectcx_s (d dq r rq : string) : path := ["pec"; "thermal_cx"; d; dq; r; json rq]. (* pec.py:258 *)
+Definition path_wvl_s (s q : string) : path := ["wavelength"; s; json q].                        (* wavelength.py:83 *)
+Definition path_bcx_s (d r rq : string) : path := ["beam"; "cx"; d; r; json rq].                 (* beam/cx.py:138 *)
+Definition path_bstop_s (b t q : string) : path := ["beam"; "stopping"; b; t; json q].           (* beam/stopping.py:97 *)
+Definition path_bpop_s (b m t q : string) : path := ["beam"; "population"; b; m; t; json q].     (* beam/population.py:103 *)
+Definition path_bem_s (b t q : string) : path := ["beam"; "emission"; b; t; json q].             (* beam/emission.py:104 *)
+Definition path_tcx d dq r := path_tcx_s d (strZ dq) r.
+Definition path_pec c s q := path_pec_s c s (strZ q).
+Definition path_pectcx d dq r rq := path_pectcx_s d (strZ dq) r (strZ rq).
+Definition path_wvl s q := path_wvl_s s (strZ q).
+Definition path_bcx d r rq := path_bcx_s d r (strZ rq).
+Definition path_bstop b t q := path_bstop_s b t (strZ q).
+Definition path_bpop b m t q := path_bpop_s b (strZ m) t (strZ q).
+Definition path_bem b t q := path_bem_s b t (strZ q).
 
 Definition loc (k : key) : path * subkey :=
   match k with
